@@ -206,7 +206,10 @@ def _q1(vc, mode):
             G.inflight = None
             G.got_eos = True
             return queueing.EOS.token
-        ev = {'type': 'MODIFIED', 'object': {'metadata': {'resourceVersion': _version_of(vc, 'event.version')}}}
+        # every kind of watch event, also the type-less ones of a (re-)listing: a listing queued behind a running handler carries
+        # the object as it was BEFORE the operator's patch (seeded C05-10: the worker dropped its expectation on any listing event)
+        ev = {'type': vc.fin('event.type', [None, 'ADDED', 'MODIFIED', 'DELETED']),
+              'object': {'metadata': {'resourceVersion': _version_of(vc, 'event.version')}}}
         G.event, G.event_id = ev, head
         return ev
 
@@ -496,6 +499,37 @@ def Q5(vc):
             return asyncio.CancelledError()
         return None
 
+    def _start_later(job):
+        # S2: the scheduler STARTS a job later (with a saturated worker limit: any number of the watcher's iterations
+        # later).  A job handed over as a coroutine object is bound now.  A job handed over as a FACTORY (a callable the
+        # scheduler calls when the job really starts) is called then: whatever it reads from the watcher's loop-carried
+        # locals through its closure has moved on by then -- the cells of locals that the loop assigns hold a later
+        # iteration's values when the factory runs (seeded C01-10: `coro=lambda: worker(..., key=key)`).
+        if hasattr(job, 'kw') or not callable(job):
+            return job
+        names = _loop_assigned_locals()
+        cells = [(c, c.cell_contents) for n, c in zip(job.__code__.co_freevars, job.__closure__ or ()) if n in names]
+        for c, v in cells:
+            c.cell_contents = (tuple(Opaque(f'a later iteration: {i}') for i, _ in enumerate(v)) if isinstance(v, tuple)
+                               else Opaque('a later iteration'))
+        try:
+            return job()
+        finally:
+            for c, v in cells:
+                c.cell_contents = v
+
+    def _loop_assigned_locals():
+        import ast, inspect, textwrap
+        mod = vc.module('kopf._core.reactor.queueing') if hasattr(vc, 'module') else queueing
+        tree = ast.parse(textwrap.dedent(inspect.getsource(mod.watcher)))
+        names = set()
+        for loop in ast.walk(tree):
+            if isinstance(loop, (ast.AsyncFor, ast.For, ast.While)):
+                for n in ast.walk(loop):
+                    if isinstance(n, ast.Name) and isinstance(n.ctx, ast.Store):
+                        names.add(n.id)
+        return names
+
     class Scheduler:
         def __init__(self, limit=None, exception_handler=None):
             state.handler = exception_handler
@@ -503,6 +537,7 @@ def Q5(vc):
             state.closed = False
 
         async def spawn(self, coro, name=None):
+            coro = _start_later(coro)
             vc.emit('spawn', coro)
             state.spawns.append(coro)
             await suspend('scheduler.spawn')
